@@ -69,11 +69,16 @@ func RuleE1(c *Ctx) {
 	}
 }
 
-func loadName(f *types.Func) string { return strings.TrimPrefix(f.FullName(), "github.com/jsightapi/jsight-api-go-library/") }
+func loadName(f *types.Func) string {
+	return strings.TrimPrefix(f.FullName(), "github.com/jsightapi/jsight-api-go-library/")
+}
 
 type e1 struct {
-	c     *Ctx
-	sc    interface{ Holds(string, string, string); Violation(string, string, string) }
+	c  *Ctx
+	sc interface {
+		Holds(string, string, string)
+		Violation(string, string, string)
+	}
 	seen  map[string]bool
 	cross []*types.Func
 }
